@@ -19,13 +19,13 @@
 (***************************************************************************)
 EXTENDS Naturals, Sequences, FiniteSets, TLC, Json
 
-CONSTANTS TimeMenu,       \* set of <<max_time, cost of one pass>> in abstract ticks
+CONSTANTS TimeMenu,       \* set of <<max_time, cost of one pass, cost of evaluating one authorize / query call>> in abstract ticks
           LevelsMenu,     \* set of level sequences
           FactLimits, IterLimits,   \* sets of naturals
           CallSeqs,       \* set of sequences of call names
           ExportOn
 
-VARIABLES sc,        \* the scenario: [levels, mf, mi, mt, cost, calls]
+VARIABLES sc,        \* the scenario: [levels, mf, mi, mt, cost, qcost, calls]
           elapsed,   \* abstract clock: ticks consumed by the passes performed so far
           pos,       \* index into levels reached so far (1 = initial facts)
           iters,     \* cumulative number of growing passes performed
@@ -39,8 +39,10 @@ Facts == sc.levels[pos]
 AtFixpoint == pos = Len(sc.levels)
 
 Init ==
-    /\ sc \in {[levels |-> l, mf |-> f, mi |-> i, mt |-> t[1], cost |-> t[2], calls |-> c] :
+    /\ sc \in {[levels |-> l, mf |-> f, mi |-> i, mt |-> t[1], cost |-> t[2], qcost |-> t[3], calls |-> c] :
                  l \in LevelsMenu, f \in FactLimits, i \in IterLimits, c \in CallSeqs, t \in TimeMenu}
+    \* slow calls are combined with rule-free programs and with sequences of evaluating calls only
+    /\ (sc.qcost > 0) => (Len(sc.levels) = 1 /\ \A k \in 1..Len(sc.calls) : sc.calls[k] \in {"authorize", "query", "query_all"})
     /\ elapsed = 0
     /\ pos = 1 /\ iters = 0 /\ status = "idle" /\ ncall = 0 /\ results = <<>>
 
@@ -69,28 +71,36 @@ Pass ==
     /\ pos' = pos + 1 /\ iters' = iters + 1 /\ elapsed' = elapsed + sc.cost
     /\ UNCHANGED <<sc, status, ncall, results>>
 
-Finish(outcome, st) ==
+\* the time budget is cumulative over the CALLS too: evaluating the checks and policies of authorize, or a
+\* query, takes qcost ticks (a slow authorizer).  Such a call only starts while time is left, what it
+\* consumes counts for the later calls, and (the clock being the machine's) it may always time out.
+CallName == sc.calls[ncall + 1]
+SlowCall == sc.qcost > 0 /\ ncall < Len(sc.calls) /\ CallName \in {"authorize", "query", "query_all"}
+
+Finish(outcome, st, ticks) ==
     /\ results' = Append(results, outcome)
     /\ ncall' = ncall + 1
     /\ status' = st
-    /\ UNCHANGED <<sc, pos, iters, elapsed>>
+    /\ elapsed' = elapsed + ticks
+    /\ UNCHANGED <<sc, pos, iters>>
 
 \* the call returns Ok: fixpoint reached within the budgets
 ReturnOk ==
     /\ status = "running" /\ AtFixpoint /\ Facts <= sc.mf
-    /\ Finish("ok", "idle")
+    /\ SlowCall => elapsed < sc.mt
+    /\ Finish("ok", "idle", IF SlowCall THEN sc.qcost ELSE 0)
 
 \* the call returns a run-limit error; the authorizer stays exhausted for good.
 \* At the exact boundary the implementation may report exhaustion one step early.
 ReturnLimit ==
     /\ status = "running"
-    /\ OverBudget \/ Facts >= sc.mf \/ (iters >= sc.mi /\ iters > 0) \/ elapsed >= sc.mt
-    /\ Finish("limit", "exhausted")
+    /\ OverBudget \/ Facts >= sc.mf \/ (iters >= sc.mi /\ iters > 0) \/ elapsed >= sc.mt \/ SlowCall
+    /\ Finish("limit", "exhausted", 0)
 
 \* every call on an exhausted authorizer fails at once, without evaluating anything
 FailFast ==
     /\ status = "exhausted" /\ ncall < Len(sc.calls) /\ ~NextIsSnapshot
-    /\ Finish("limit", "exhausted")
+    /\ Finish("limit", "exhausted", 0)
 
 Next == StartCall \/ Pass \/ ReturnOk \/ ReturnLimit \/ FailFast \/ Snapshot
 Spec == Init /\ [][Next]_vars
@@ -121,18 +131,19 @@ Export ==
 \* chain programs: L growing passes of +1 fact from n0 initial facts; wide: one pass adding k*k facts
 LevelsSmall == {<<3>>, <<7>>, <<4, 5>>, <<5, 6, 7>>, <<6, 7, 8, 9>>, <<3, 12>>, <<6, 7, 8, 9, 10, 11>>}
 \* fast programs under a generous clock, and slow programs (one pass outlasts max_time)
-Times == {<<1000, 0>>, <<1, 2>>}
+\* ... and fast programs with slow calls: every authorize / query costs 2 ticks out of 5
+Times == {<<1000, 0, 0>>, <<1, 2, 0>>, <<5, 0, 2>>}
 FactLims == {0, 3, 5, 7, 9, 12, 1000}
 IterLims == {0, 1, 2, 3, 5, 1000}
 Calls1 == {<<"authorize">>, <<"run">>, <<"query">>}
 Calls3 == {<<"authorize">>, <<"run", "authorize">>, <<"authorize", "authorize", "authorize">>,
            <<"run", "query", "authorize">>, <<"query_all", "authorize">>, <<"authorize", "query">>,
-           <<"run", "run", "run", "authorize">>,
+           <<"run", "run", "run", "authorize">>, <<"query_all", "query_all", "query_all", "authorize">>,
            <<"snapshot", "authorize">>, <<"authorize", "snapshot", "authorize">>, <<"run", "snapshot", "run", "authorize">>,
            <<"query", "snapshot", "snapshot", "authorize">>}
 \* thorough tier: more shapes (longer chains, two wide passes), every limit around every level, longer call sequences
-LevelsBig == LevelsSmall \cup {<<1>>, <<2, 3, 4, 5, 6, 7, 8, 9>>, <<4, 20>>, <<10, 59>>, <<10, 11, 12>>}
-FactLimsBig == {0, 1, 2, 3, 4, 5, 6, 7, 8, 9, 10, 11, 12, 13, 19, 20, 21, 58, 59, 60, 1000}
+LevelsBig == LevelsSmall \cup {<<1>>, <<8, 9, 10, 11, 12, 13, 14, 15>>, <<4, 20>>, <<10, 59>>, <<10, 11, 12>>}
+FactLimsBig == {0, 1, 2, 3, 4, 5, 6, 7, 8, 9, 10, 11, 12, 13, 14, 15, 16, 19, 20, 21, 58, 59, 60, 1000}
 IterLimsBig == {0, 1, 2, 3, 4, 5, 6, 7, 8, 1000}
 Calls5 == Calls3 \cup {<<"authorize", "run", "query", "query_all", "authorize">>, <<"run", "snapshot", "authorize", "snapshot", "authorize">>,
                        <<"query_all", "query_all">>, <<"query", "run">>, <<"snapshot", "snapshot", "run">>,
